@@ -5,7 +5,7 @@
    The invariant FI ties the monitor's record sp6 to the tracker state; its core: a cid is in s6_failed exactly when the
    operation tracked for it is a pin / unpin operation that is in error once it is no longer live. *)
 From V Require Import Base.Common Base.CommonLemmas Model.C05_Tracker Model.C05_Check Model.C06_Check
-  Proofs.C05_Tracker Proofs.C06_Status Proofs.C06_MonitorT Proofs.C05_MonitorC Proofs.C06_MonitorQ.
+  Proofs.C05_Tracker Proofs.C05_Monitor Proofs.C06_Status Proofs.C06_MonitorT Proofs.C05_MonitorC Proofs.C06_MonitorQ.
 Open Scope N_scope.
 
 (* ---------- the hypotheses on scripts ---------- *)
@@ -382,3 +382,77 @@ Proof. unfold x'. case_eq e; [intros p Ee|intros c0 Ee|intros c0 Ee|intros ord E
       * rewrite (Hk1 ltac:(discriminate)). cbn [N.eqb Pos.eqb andb]. now apply Hclean_case.
   - (* Daemon *) apply g_frame; [tauto|]. intros c. apply fs_other. rewrite Ee. exact Logic.I. Qed.
 End FStep.
+
+Section FStep2.
+Variables (n : N) (fs : list N) (s : st) (x : sp6) (e : event).
+Hypothesis M : FI s x.
+Hypothesis Hst : ev_stable s e.
+Hypothesis Hord : ord_ok s e.
+
+Theorem FI_step : FI (fst (step s e)) (sp6_event x e (model_obs n (fst (step s e)) (snd (step s e)) fs)).
+Proof. pose proof (f_inv _ _ M) as I. pose proof (f_linv _ _ M) as L.
+  destruct (fs_failed n fs s x e M Hst Hord) as [G1 G2]. constructor.
+  - apply step_inv, I.
+  - apply step_linv; [apply I | apply L | discriminate].
+  - apply (step_minv false); auto. apply M.
+  - rewrite step_npin. apply M.
+  - apply step_dispatched.
+  - destruct (step_fields s e I) as [A _]. rewrite A, <- (f_pinset _ _ M). case_eq e; intros; reflexivity.
+  - case_eq e; intros; reflexivity.
+  - case_eq e; intros; reflexivity.
+  - intros l H. match type of H with s6_all (sp6_event x e ?o) = _ => assert (E : s6_all (sp6_event x e o) = Some (o_all o)) by (case_eq e; reflexivity) end.
+    rewrite E in H. injection H as <-. reflexivity.
+  - exact G1.
+  - exact G2. Qed.
+End FStep2.
+
+(* ---------- codes 20 / 21 on the model's observation at a quiescent state ---------- *)
+Lemma truthful_ok n s x r fs : FI s x -> quiescent s = true ->
+  truthful_status_okb n x (model_obs n s r fs) = true /\ truthful_listing_okb n x (model_obs n s r fs) = true.
+Proof. intros M Q. pose proof (f_inv _ _ M) as I. pose proof (f_linv _ _ M) as L.
+  assert (H : forall c, In c (nrange n) -> in_cls (class_bits (o_st (model_obs n s r fs) c)) (expected x (model_obs n s r fs) c) = true).
+  { intros c Hc. rewrite (o_st_model n s r fs c Hc). change (class_bits (st_bits (status_of s c))) with (class_of (status_of s c)).
+    rewrite (truthful_l s c I L (f_minv _ _ M) Q). unfold expected_class, expected.
+    destruct (failed_op s c) eqn:F.
+    - apply (f_g1 _ _ M) in F. apply memN_in in F. rewrite F. reflexivity.
+    - destruct (memN c (s6_failed x)) eqn:Mf.
+      + exfalso. apply memN_in in Mf. destruct (f_g2 _ _ M c Mf) as (o0 & Ho & T).
+        rewrite (failed_op_err s c o0 Ho (quiescent_errors s I Q c o0 Ho) T) in F. discriminate.
+      + rewrite (f_pinset _ _ M). destruct (aget c (pinset s)) as [p|]; [|reflexivity]. destruct (pmeta p); [reflexivity|].
+        destruct (premote p); [reflexivity|]. unfold o_dm, model_obs, o_daemon. fold (dmobs s). rewrite dm_mode.
+        destruct (ipfs_has s c (pdirect p)); reflexivity. }
+  split; unfold truthful_status_okb, truthful_listing_okb; apply forallb_forall; intros c Hc; [now apply H|].
+  pose proof (model_views_agree n s r fs (inv_nodup _ I) (li_pnodup _ _ L)) as V. unfold views_agree_okb in V. rewrite forallb_forall in V.
+  specialize (V c Hc). apply cls_eqb_eq in V. rewrite <- V. now apply H. Qed.
+
+Lemma mtrace_truthful n fs evs : forall s x, FI s x -> stable_run s evs -> ord_run s evs ->
+  ~ In 20 (spec_walk6 n x (mtrace n fs s evs)) /\ ~ In 21 (spec_walk6 n x (mtrace n fs s evs)).
+Proof. induction evs as [|e r IH]; intros s x M St Or; [split; intros []|]. destruct St as [St1 St2]. destruct Or as [Or1 Or2].
+  cbn [mtrace]. rewrite spec_walk6_cons.
+  set (s' := fst (step s e)) in *. set (o := model_obs n s' (snd (step s e)) fs).
+  pose proof (FI_step n fs s x e M St1 Or1) as M'. fold s' o in M'.
+  destruct (IH s' (sp6_event x e o) M' St2 Or2) as [A B].
+  assert (Hq : o_quiescent o = quiescent s') by (apply quiescence_agrees; apply M').
+  assert (Hc : forall k, (k = 20 \/ k = 21) -> ~ In k (codes6_at n x e o)).
+  { intros k Hk K. unfold codes6_at in K. cbv zeta in K. rewrite Hq in K. destruct (quiescent s') eqn:Q.
+    - destruct (truthful_ok n s' (sp6_event x e o) (snd (step s e)) fs M' Q) as [T1 T2]. fold o in T1, T2. rewrite T1, T2 in K. cbn [andb negb app] in K.
+      repeat (apply in_app_or in K; destruct K as [K|K]);
+        repeat match type of K with In _ (if ?b then _ else _) => destruct b end; try destruct K as [K|K]; try contradiction; destruct Hk; subst; discriminate.
+    - cbn [andb app] in K. repeat (apply in_app_or in K; destruct K as [K|K]);
+        repeat match type of K with In _ (if ?b then _ else _) => destruct b end; try destruct K as [K|K]; try contradiction; destruct Hk; subst; discriminate. }
+  split; intros K; apply in_app_or in K; destruct K as [K|K]; auto; [apply (Hc 20) in K | apply (Hc 21) in K]; auto. Qed.
+
+Lemma FI_init q np n pins i : (0 < np)%nat -> NoDup (map pcid pins) ->
+  FI (init q np (map (fun p => (pcid p, p)) pins) i) (sp6_init (q, np, n, pins, dm_of i)).
+Proof. intros Hnp Hnd. constructor; cbn [sp6_init s6_pinset s6_failed s6_dm s6_inf s6_all].
+  - apply init_inv. - apply init_linv. now apply wf_pins. - apply init_minv. - exact Hnp. - apply init_dispatched.
+  - reflexivity. - reflexivity. - reflexivity. - discriminate.
+  - intros c H. discriminate.
+  - intros c []. Qed.
+
+Theorem truthful_model_passes_l q np n pins i fs evs : (0 < np)%nat -> NoDup (map pcid pins) ->
+  let cf := (q, np, n, pins, dm_of i) in
+  stable_run (init_of cf) evs -> ord_run (init_of cf) evs ->
+  ~ In 20 (spec_codes6 cf (mtrace n fs (init_of cf) evs)) /\ ~ In 21 (spec_codes6 cf (mtrace n fs (init_of cf) evs)).
+Proof. intros Hnp Hnd cf St Or. unfold spec_codes6. rewrite !nodup_In. unfold cf in *. cbn [ncid_of]. rewrite init_of_dm in *.
+  apply mtrace_truthful; auto. now apply FI_init. Qed.
